@@ -92,6 +92,17 @@ Proof.
   exact (engine_correct p fuel edb (no_aggb_spec p Ha) Hs Hf M HM ans (acyclic_order_ok p rank Hr HB) He Hne).
 Qed.
 
+(* ... and this is exactly the class of programs with a dependency-respecting engine order: `order_ok p`
+   (the boolean evaluated on every generated case, false for known-finding class 1) holds if and only if
+   such a rank function exists and the last head is unused by the others. *)
+Theorem C01_execution_order_characterised :
+  forall p : program,
+    order_ok p = true <->
+    exists rank : rel -> nat,
+      (forall h g, In h (heads p) -> In g (deps p (heads p) h) -> (rank g < rank h)%nat) /\
+      (forall h, In h (heads p) -> ~ In (last (heads p) 0) (deps p (heads p) h)).
+Proof. exact order_ok_iff. Qed.
+
 (* non-vacuity of the two graph hypotheses: tc_neg (self-recursive closure over a negated stratum) with
    rank 10 -> 0, 11 -> 1, 99 -> 2 *)
 Example C01_acyclic_nonvacuous :
@@ -111,3 +122,4 @@ Qed.
 Print Assumptions C01_engine_is_perfect_model.
 Print Assumptions C01_refuted_mutual.
 Print Assumptions C01_acyclic_engine_is_perfect_model.
+Print Assumptions C01_execution_order_characterised.
